@@ -14,7 +14,7 @@ ASSUME = c02.ASSUME[:4] + [
     "ASAP bound recomputed from observed predecessor dates; ALAP deadline = own/inherited end, else earliest successor start minus gap, else observed project end",
 ]
 
-PATTERNS = ["one20", "one90", "one600", "chain", "indep", "fork", "prio", "team", "gapchain"]
+PATTERNS = ["one20", "one90", "one600", "chain", "indep", "fork", "prio", "team", "gapchain", "nestends"]
 
 
 def universe(tier):
@@ -72,9 +72,17 @@ def to_spec(it):
     elif pat == "gapchain":
         # successor on another resource, gap that is not a multiple of the slot: the predecessor's deadline falls inside a slot
         tasks = [T("a", 150), {"id": "b", "effort": 90, "alloc": ["r2"], "deps": [{"ref": "a", "gap": "90min" if L == 60 else "50min"}]}]
+    elif pat == "nestends":
+        # outer dated container > inner dated container with an EARLIER end > chain; the inner end is the leaves' deadline
+        inner = {"id": "i", "end": c02._day(start, 9, "-12:00"), "children": [T("a", 150), T("b", 90, deps=["!a"])]}
+        tasks = [{"id": "o", "end": c02._day(start, 11, "-17:00"), "children": [inner, T("c", 60)]}]
     else:
         tasks = [T("a", 40), {"id": "b", "effort": 150, "alloc": ["r1", "r2"]}, T("c", 90, deps=["b"])]
-    if it["mode"] in ("talap", "talap-mid"):
+    if pat == "nestends":
+        if it["mode"] in ("talap", "talap-mid"):
+            for t in (tasks[0]["children"][0]["children"] + [tasks[0]["children"][1]]):
+                t["sched"] = "alap"
+    elif it["mode"] in ("talap", "talap-mid"):
         # task-level ALAP anchored by explicit ends on the sinks
         referenced = {d if isinstance(d, str) else d["ref"] for t in tasks for d in t.get("deps", [])}
         for t in tasks:
@@ -116,7 +124,7 @@ def run(ctx):
     explore(ctx, universe(ctx.tier), "mc.props.c08:evaluate", st, payload=payload, sample_of=sample, timeout=120)
     common.vacuity_guard(ctx, st)
     cov = st.coverage(
-        "product universe: (6 hour sets x 6 day lists x zones x resolutions) + default calendar with 9 leave layouts, x 9 task patterns "
+        "product universe: (6 hour sets x 6 day lists x zones x resolutions) + default calendar with 9 leave layouts, x 10 task patterns "
         "(single sub-slot / multi-day tasks, chains, forks, priorities, a team) x {ASAP, project ALAP, task ALAP with explicit slot-aligned ends, task ALAP with ends inside a slot} x "
         "efficiency; states = distinct schedule observations; transitions = placements + bookings; non-trivial = some judged task has "
         ">= 2 slots between its bound (deadline) and its last (first) booked slot")
